@@ -651,6 +651,33 @@ class CodeGen:
         self.wrap_try(s, lambda: self.emit(src))
         self.step({"kind": "aset", "desc": {"op": "aset"}})
 
+    TERMINATORS = {
+        "end": [],
+        "sys_exit": ["sys.exit({arg})"],
+        "raise_SystemExit": ["raise SystemExit({arg})"],
+        "builtin_exit": ["exit({arg})"],
+        "builtin_quit": ["quit({arg})"],
+        "uncaught": ["raise RuntimeError('boom')"],
+        "uncaught_assert": ["PrivVal(1).assert_eq(2)"],
+        "uncaught_in_guard": ["guarded(PrivVal(1))(lambda: PrivVal(1).assert_eq(2))()"],
+        "uncaught_in_dead_guard_user": ["def _boom(): raise KeyError('user code')", "guarded(PrivVal(0))(_boom)()"],
+        "uncaught_in_snark": ["snark(lambda x: x.assert_eq(x + 1))(3)"],
+        "uncaught_in_finally": ["try:", "    raise ValueError('inner')", "finally:", "    PrivVal(2) * PrivVal(3)"],
+        "keyboard_interrupt": ["raise KeyboardInterrupt"],
+        "caught_exit_then_end": ["try:", "    sys.exit({arg})", "except SystemExit:", "    pass"],
+        "caught_error_then_end": ["try:", "    PrivVal(1).assert_eq(2)", "except AssertionError:", "    pass"],
+        "os__exit": ["os._exit({arg})"],
+        "exit_in_guard": ["guarded(PrivVal(1))(lambda: sys.exit({arg}))()"],
+    }
+
+    def st_terminate(self, s):
+        arg = s.get("arg", "")
+        self.emit("__term__(%r)" % s["mode"])
+        for ln in self.TERMINATORS[s["mode"]]:
+            self.emit(ln.format(arg=arg))
+        if s["mode"] in ("caught_exit_then_end", "caught_error_then_end"):
+            self.emit("__term__('after-caught')")
+
     def schema_src(self, sc):
         k = sc[0]
         if k == "bool":
